@@ -78,6 +78,7 @@ from vgi_rpc.rpc._wire import (
     _deserialize_params,
     _drain_stream,
     _flush_collector,
+    _flush_collector_logs,
     _read_request,
     _validate_call_signature,
     _validate_params,
@@ -1171,7 +1172,7 @@ class RpcServer:
             error_type = _log_method_error(protocol_name, info.name, self._server_id, exc)
             error_message = str(exc)
             with contextlib.suppress(BrokenPipeError, OSError):
-                _write_error_stream(transport.writer, _EMPTY_SCHEMA, exc, server_id=self._server_id)
+                _write_error_stream(transport.writer, _EMPTY_SCHEMA, exc, server_id=self._server_id, sink=sink)
             self._drain_refused_stream_input(transport, info)
             return
         finally:
@@ -1216,6 +1217,9 @@ class RpcServer:
             with new_ipc_stream(transport.writer, output_schema) as output_writer:
                 sink.flush_contents(output_writer, output_schema)
                 cumulative_bytes = 0
+                # Collector of the process() call in flight: if the call fails, the
+                # client logs it emitted are still delivered, ahead of the error.
+                in_flight: OutputCollector | None = None
                 try:
                     while True:
                         try:
@@ -1282,9 +1286,11 @@ class RpcServer:
                             kind=self._transport_kind,
                             implementation=self._impl,
                         )
+                        in_flight = out
                         state.process(ab_in, out, process_ctx)
                         if not out.finished:
                             out.validate()
+                        in_flight = None
                         _flush_collector(output_writer, out, self._external_config, shm=shm)
                         if out.finished:
                             break
@@ -1295,6 +1301,8 @@ class RpcServer:
                     error_type = _log_method_error(protocol_name, info.name, self._server_id, exc)
                     error_message = str(exc)
                     with contextlib.suppress(BrokenPipeError, OSError):
+                        if in_flight is not None:
+                            _flush_collector_logs(output_writer, in_flight)
                         _write_error_batch(output_writer, output_schema, exc, server_id=self._server_id)
                 finally:
                     # Release the final input before closing the output IPC
